@@ -28,6 +28,8 @@ type Options struct {
 	DumpSMT  string
 	Timeout  int
 	NoEvidence bool
+	EmitOpen   bool
+	NoReplay   bool
 }
 
 type FuncReport struct {
@@ -208,6 +210,7 @@ type obResult struct {
 
 func RunCheck(opt Options) int {
 	start := time.Now()
+	repoRoot = opt.Repo
 	cs := NewContractSet()
 	// contract files in repo
 	files := FindContractFiles(opt.Repo)
@@ -545,28 +548,38 @@ func report(opt Options, obs []obResult, reports []FuncReport, trusted, assumpti
 	}
 	exit := 0
 	os.MkdirAll(filepath.Join(opt.Verif, "out", "replay"), 0o755)
+	if old, _ := filepath.Glob(filepath.Join(opt.Verif, "out", "replay", opt.Prop+"-*.json")); opt.OnlyFunc == "" {
+		for _, f := range old {
+			os.Remove(f)
+		}
+	}
 	for i, ob := range violations {
 		rf := replayFile{Property: opt.Prop, Obligation: ob.Name, Kind: ob.Kind, Function: ob.Func, Position: ob.Pos, Clause: ob.Clause,
 			Solver: ob.Result.Solver, Status: ob.Result.Status, Output: ob.Result.Output, Model: ob.Result.Model, Notes: ob.notes}
 		rf.Replay = "not-replayable"
 		suffix := " no-failing-input-found"
-		if ob.Result.Status == "sat" {
-			rf.Inputs = map[string]string{}
-			for k, val := range ob.Result.Model {
-				if strings.HasPrefix(k, "in!") {
-					rf.Inputs[k] = val
-				}
+		rf.Inputs = map[string]string{}
+		for k, val := range ob.Result.Model {
+			if strings.HasPrefix(k, "in!") {
+				rf.Inputs[k] = val
 			}
-			outcome, log, src := tryReplay(opt, ob, rf.Inputs)
-			rf.Replay, rf.ReplayLog, rf.TestSource = outcome, log, src
-			if outcome == "reproduced" {
-				suffix = ""
-			}
+		}
+		// hand-written witnesses (replay/builders) apply whatever the solver answered; model-driven replay needs a model
+		outcome, log, src := "not-replayable", "", ""
+		if !opt.NoReplay {
+			outcome, log, src = tryReplay(opt, ob, rf.Inputs)
+		}
+		rf.Replay, rf.ReplayLog, rf.TestSource = outcome, log, src
+		if outcome == "reproduced" {
+			suffix = ""
 		}
 		path := filepath.Join(opt.Verif, "out", "replay", fmt.Sprintf("%s-%03d.json", opt.Prop, i))
 		b, _ := json.MarshalIndent(rf, "", "  ")
 		os.WriteFile(path, b, 0o644)
 		fmt.Printf("FAILED-OBLIGATION: %s [%s] %s at %s (%s, %s)\n", ob.Name, ob.Kind, trunc(ob.Clause, 100), ob.Pos, ob.Result.Status, ob.Result.Solver)
+		if opt.EmitOpen {
+			fmt.Printf("EMIT open: property=%s obligation=%s reason=TODO (%s at %s)\n", opt.Prop, ob.Name, ob.Result.Status, ob.Pos)
+		}
 		fmt.Printf("VIOLATION property=%s replay=%s obligation=%s%s\n", opt.Prop, path, ob.Name, suffix)
 		exit = 1
 	}
@@ -721,6 +734,9 @@ func (v *Verifier) VerifyFunction(fn *ssa.Function, fc *FuncContract) (err error
 		if len(e.results) == 1 {
 			ev.env["result"] = e.results[0]
 		}
+		if n := rs.Len(); n >= 1 && n <= len(e.results) && rs.At(n-1).Name() == "" && typeName(rs.At(n-1).Type()) == "error" {
+			ev.env["err"] = e.results[n-1]
+		}
 		if clo != nil {
 			for i, fv := range fn.FreeVars {
 				et := fv.Type().(*types.Pointer).Elem()
@@ -730,6 +746,84 @@ func (v *Verifier) VerifyFunction(fn *ssa.Function, fc *FuncContract) (err error
 		for _, c := range fc.Clauses {
 			if c.Kind == "ensures" && !c.IsLoop {
 				v.addOb(e.st, "post", fn.Pos(), ev.boolExpr(c.Expr), "ensures "+c.Text, c.Props)
+			}
+		}
+		// refinement: ensures of interface-method contracts this method implements
+		for _, ic := range v.ifaceContractsFor(fn) {
+			iev := &Eval{v: v, st: e.st, old: v.entry, env: map[string]*Value{}, mode: evalCall, fc: ic, pkg: fnPkg(fn)}
+			if len(args) > 0 {
+				iev.env["self"] = args[0]
+			}
+			sig := fn.Signature
+			for k := 0; k < sig.Params().Len() && k+1 < len(args); k++ {
+				n := sig.Params().At(k).Name()
+				if ic.ParamNames != nil && k < len(ic.ParamNames) {
+					n = ic.ParamNames[k]
+				}
+				iev.env[n] = args[k+1]
+			}
+			for k := 0; k < rs.Len() && k < len(e.results); k++ {
+				iev.env[fmt.Sprintf("result%d", k)] = e.results[k]
+				if ic.ResultNames != nil && k < len(ic.ResultNames) {
+					iev.env[ic.ResultNames[k]] = e.results[k]
+				}
+			}
+			if len(e.results) == 1 {
+				iev.env["result"] = e.results[0]
+			}
+			for _, c := range ic.Clauses {
+				if c.Kind == "ensures" {
+					v.addOb(e.st, "post", fn.Pos(), iev.boolExpr(c.Expr), "implements "+ic.Key+": ensures "+c.Text, c.Props)
+				}
+			}
+		}
+	}
+	return nil
+}
+
+// ifaceContractsFor returns interface-method contracts that fn (a method) must refine.
+func (v *Verifier) ifaceContractsFor(fn *ssa.Function) []*FuncContract {
+	recv := fn.Signature.Recv()
+	if recv == nil {
+		return nil
+	}
+	var out []*FuncContract
+	for _, key := range v.contracts.order {
+		ic := v.contracts.byName[key]
+		if !strings.HasPrefix(ic.Header, "interface ") {
+			continue
+		}
+		k := strings.LastIndex(key, ".")
+		if k < 0 || key[k+1:] != fn.Name() {
+			continue
+		}
+		it := v.lookupNamedType(key[:k])
+		if it == nil {
+			continue
+		}
+		iface, ok := it.Underlying().(*types.Interface)
+		if !ok {
+			continue
+		}
+		if types.Implements(recv.Type(), iface) {
+			out = append(out, ic)
+		}
+	}
+	return out
+}
+
+func (v *Verifier) lookupNamedType(short string) types.Type {
+	k := strings.LastIndex(short, ".")
+	if k < 0 {
+		return nil
+	}
+	pkgShort, name := short[:k], short[k+1:]
+	for _, p := range v.prog.AllPackages() {
+		if shortPkg(p.Pkg.Path()) == pkgShort {
+			if o := p.Pkg.Scope().Lookup(name); o != nil {
+				if tn, ok := o.(*types.TypeName); ok {
+					return tn.Type()
+				}
 			}
 		}
 	}
